@@ -68,7 +68,18 @@ def generic(prop, tier, jobs, rule, assumptions, level="exploration", recheck=0,
     m = merge(results)
     for (r, why) in abnormal(results):
         v = None
-        if not r.timed_out:
+        srep = sanitizer_report(r)
+        if srep is not None:
+            if srep.get("frame") is None and srep.get("maybe_harness"):
+                inconclusive.append("%s shard %d: %s reported '%s' outside the crate under test (harness problem)" % (r.job.name, r.idx, srep["tool"], srep["message"]))
+                continue
+            body = {"property": prop, "engine": r.job.engine, "config": r.job.cfg, "profile": r.job.prof, "instr": r.job.instr, "what": "%s: %s" % (srep["kind"], srep["message"]),
+                    "first_frame_in_crate": srep.get("frame"), "report": srep["excerpt"], "command": r.cmd,
+                    "shard_replay": {"idx": r.idx, "shards": r.job.shards, "seed": sd, "budget": r.job.budget, "job_args": r.job.args, "miriflags": getattr(r.job, "miriflags", "")}}
+            path = write_replay(prop, sd, 900000 + len(violations), body)
+            violations.append({"sig": "%s:%s:%s" % (srep["tool"], srep.get("frame"), srep["message"][:80]), "what": "%s %s at %s (%s %s/%s)" % (srep["tool"], srep["kind"], srep.get("frame"), r.job.instr, r.job.cfg, r.job.prof), "replay": path, "job": r.job.name})
+            continue
+        if not r.timed_out and r.job.engine == "eng_parse":
             v = crash_isolate(prop, r, sd, workdir)
         if v:
             violations.append(v)
@@ -293,6 +304,94 @@ def p_c10(prop, tier):
     return generic(prop, tier, jobs, rule, ["metamorphic: a value that is wrong in every spelling alike is only seen by the sampled oracle anchor (and by C01/C02)"] + ASSUME_ORACLE)
 
 
+def p_c11(prop, tier):
+    if tier == "quick":
+        jobs = [Job("eng_moderate", c, pr, shards=n, budget=B(14)) for (c, pr, n) in [("default", "rel", 5), ("compact", "rel", 5), ("default", "chk", 2), ("compact", "chk", 2), ("nostd+compact", "rel", 2)]]
+    else:
+        jobs = [Job("eng_moderate", c, pr, shards=n, budget=B(150)) for (c, pr, n) in [("default", "rel", 8), ("compact", "rel", 8), ("default", "chk", 4), ("compact", "chk", 4), ("nostd+compact", "rel", 4), ("alloc", "rel", 2), ("compact+alloc", "rel", 2)]]
+    rule = ("(w, q, truncated) triples fed directly to moderate_path / lemire / bellerophon for f32 and f64: the whole continued-fraction corpus (w*10^q within ~2^-100..2^-120 of a midpoint or a float) with w-1, w, w+1, exact and truncated; "
+            "15..20-digit prefixes of exact midpoint/float expansions as (w,q) and (w+1,q); 19-digit exact ties inside and just outside the tie windows (also unnormalised w*10^k); structured w (0, 1, 2^k+-2, 10^k+-2, u64::MAX) and q at and beyond every table end and early-out up to i32::MIN/MAX; uniform random. "
+            "A definite answer is judged by the exact oracle against w*10^q and, when truncated, against the whole interval [w, w+1)*10^q; declining is never a violation. Non-trivial = definite answer; distinct = distinct (w, q, truncated, format).")
+    return generic(prop, tier, jobs, rule, ["truncated is only combined with 1 <= w <= u64::MAX-1 (what the digit accumulator can produce; w+1 would overflow otherwise)"] + ASSUME_ORACLE)
+
+
+def lean_compare(results, violations, inconclusive, cov, prop, sd):
+    """Miri 'lean' shards print a hash of everything the crate returned; compare with the native twin."""
+    nat = {}
+    for r in results:
+        if r.summary and r.job.instr == "native" and r.summary.get("extra", {}).get("lean"):
+            nat[(r.job.cfg, r.job.prof, r.idx, tuple(r.job.args))] = r.summary["extra"].get("result_hash")
+    n = 0
+    for r in results:
+        if r.summary and r.job.instr.startswith("miri") and r.summary.get("extra", {}).get("lean"):
+            k = (r.job.cfg, r.job.prof, r.idx, tuple(r.job.args))
+            if k not in nat:
+                inconclusive.append("no native twin for %s shard %d" % (r.job.name, r.idx))
+                continue
+            n += 1
+            if nat[k] != r.summary["extra"].get("result_hash"):
+                body = {"property": prop, "engine": r.job.engine, "config": r.job.cfg, "profile": r.job.prof, "instr": r.job.instr, "what": "results under the interpreter differ from the native run of the same operations",
+                        "hashes": {"native": nat[k], r.job.instr: r.summary["extra"].get("result_hash")}, "command": r.cmd}
+                path = write_replay(prop, sd, 800000 + n, body)
+                violations.append({"sig": "miri-native-mismatch:%s:%s" % (r.job.cfg, r.job.prof), "what": body["what"], "replay": path})
+    cov["interpreter_shards_compared_with_native"] = n
+    cov["interpreter_executions"] = sum(r.summary["evals"] for r in results if r.summary and r.job.instr.startswith("miri"))
+
+
+def mem_jobs(engine, cells, shards, count, extra_args=None):
+    """Pairs of (interpreter, native twin) lean jobs with a fixed operation count."""
+    jobs = []
+    for (cfg, prof, instr) in cells:
+        a = ["--lean", "1", "--max-evals", str(count)] + list(extra_args or [])
+        j = Job(engine, cfg, prof, instr=instr, shards=shards, budget=3000, args=a, timeout=1500)
+        jobs.append(j)
+        t = Job(engine, cfg, prof, shards=shards, budget=3000, args=a, name=j.name + "-twin")
+        jobs.append(t)
+    return jobs
+
+
+def p_c12(prop, tier):
+    if tier == "quick":
+        jobs = [Job("eng_bigint", c, pr, shards=n, budget=B(12)) for (c, pr, n) in [("default", "rel", 3), ("alloc", "rel", 3), ("compact", "rel", 2), ("default", "chk", 2), ("alloc", "chk", 2)]]
+        jobs += mem_jobs("eng_bigint", [("default", "rel", "miri-sb"), ("alloc", "rel", "miri-sb"), ("default", "chk", "miri-tb")], 2, int(120 * common.budget_scale()))
+    else:
+        jobs = [Job("eng_bigint", c, pr, shards=n, budget=B(120)) for (c, pr, n) in [("default", "rel", 4), ("alloc", "rel", 4), ("compact", "rel", 2), ("compact+alloc", "rel", 2), ("nostd+compact", "rel", 2), ("default", "chk", 4), ("alloc", "chk", 4), ("compact", "chk", 2)]]
+        cells = [(c, p, i) for c in ("default", "alloc", "compact") for p in ("rel", "chk") for i in ("miri-sb", "miri-tb")]
+        jobs += mem_jobs("eng_bigint", cells, 3, int(1500 * common.budget_scale()))
+    rule = ("single big-integer operations with explicit operands (1..62 limbs; limb patterns all-ones carry chains, sparse, zero limbs inside, top limb 1/MAX; result sizes aimed at 60..64 limbs): "
+            "small_add(_from), small_mul, large_add(_from), long_mul / large_mul / MulAssign in both operand orders, pow(2|5|10, e) with every e in 0..=1720 once plus exponents around 27/135 multiples, shl / shl_bits / shl_limbs for every bit count, "
+            "compare/Ord/Eq, normalize/is_normalized, bit_length, leading_zeros, hi64 with the sticky bit at every depth, from_u64, scalar_add/mul; each result compared with the harness' reference naturals (u32 limbs, schoolbook), "
+            "including the success/failure outcome against the capacity (stack: 62 limbs; heap: unbounded, shl_limbs bounded by Vec::capacity()). "
+            "A lean slice of the same generator runs under Miri (Stacked and Tree Borrows) and must return what the native run returns. Non-trivial/distinct = distinct operation+operands.")
+
+    def post(m, results, cov, violations, inconclusive, workdir, sd):
+        lean_compare(results, violations, inconclusive, cov, prop, sd)
+
+    return generic(prop, tier, jobs, rule, ["reference big integers (harness/src/bigref.rs) are correct; they are also used by the value oracle that is cross-checked against Python integers", "operands are within what the operations assert or their callers establish (non-zero multi-limb factors, normalized input for hi64/compare, start <= len)"] + ASSUME_ORACLE[1:], post=post)
+
+
+def p_c13(prop, tier):
+    if tier == "quick":
+        jobs = [Job("eng_bigint", c, pr, shards=n, budget=B(12)) for (c, pr, n) in [("default", "rel", 3), ("alloc", "rel", 3), ("default", "chk", 2), ("alloc", "chk", 2)]]
+        mcells = [("default", "rel", "miri-sb"), ("default", "chk", "miri-tb"), ("alloc", "rel", "miri-sb")]
+        jobs += [Job("eng_bigint", c, p, instr=i, shards=2, budget=3000, args=["--max-evals", str(int(4 * common.budget_scale())), "--history-ops", "150"], timeout=1500) for (c, p, i) in mcells]
+    else:
+        jobs = [Job("eng_bigint", c, pr, shards=n, budget=B(120)) for (c, pr, n) in [("default", "rel", 4), ("alloc", "rel", 4), ("compact", "rel", 2), ("nostd+compact", "rel", 2), ("default", "chk", 4), ("alloc", "chk", 4)]]
+        mcells = [(c, p, i) for c in ("default", "alloc") for p in ("rel", "chk") for i in ("miri-sb", "miri-tb")]
+        jobs += [Job("eng_bigint", c, p, instr=i, shards=4, budget=3000, args=["--max-evals", str(int(40 * common.budget_scale())), "--history-ops", "200"], timeout=3000) for (c, p, i) in mcells]
+    rule = ("operation histories (20..400 operations each, phases that fill to the capacity, hover there and drain) over the safe API of the vector: new / from_u64 / try_from, try_push, pop, try_extend (to exactly 62 and to 63), "
+            "try_resize (grow / shrink / same / beyond capacity), normalize, add_small, mul_small (with carries at capacity), clone, ==/cmp against other vectors, hi64, indexed writes; after every operation "
+            "length, contents (through Deref), is_empty, capacity and return value are compared with an executable model (a plain sequence with capacity 62 for the stack vector, unbounded for the heap vector); "
+            "a failed push/extend/resize must change nothing. The same engine with the same model runs under Miri (Stacked + Tree Borrows: reads of never-written slots, out-of-range writes are reported there). "
+            "Non-trivial/distinct = distinct history (hash of the operation trace).")
+
+    def post(m, results, cov, violations, inconclusive, workdir, sd):
+        cov["interpreter_histories"] = sum(r.summary["evals"] for r in results if r.summary and r.job.instr.startswith("miri"))
+        cov["interpreter_operations"] = sum(r.summary.get("counters", {}).get("history.operations", 0) for r in results if r.summary and r.job.instr.startswith("miri"))
+
+    return generic(prop, tier, jobs, rule, ["numeric ordering/equality is judged on normalized vectors (what every caller passes); on the heap vector in debug-assertion builds histories stay within 62 limbs (HeapVec::set_len debug-asserts that bound)"] + ASSUME_ORACLE[1:], post=post)
+
+
 def hashlib_sig(s):
     import hashlib
     return hashlib.sha1(s.encode()).hexdigest()[:16]
@@ -300,7 +399,7 @@ def hashlib_sig(s):
 
 PLANS = {
     "C01": p_oracle, "C02": p_oracle, "C06": p_oracle, "C07": p_oracle,
-    "C03": p_c03, "C04": p_c04, "C05": p_c05, "C09": p_c09, "C10": p_c10,
+    "C03": p_c03, "C04": p_c04, "C05": p_c05, "C09": p_c09, "C10": p_c10, "C11": p_c11, "C12": p_c12, "C13": p_c13,
 }
 
 
@@ -329,6 +428,25 @@ def replay(prop, path):
         print(str(e))
         print("INCONCLUSIVE: property=%s harness does not build" % prop)
         return 3
+    if body.get("shard_replay"):
+        sr = body["shard_replay"]
+        job = Job(eng, cfg, prof, instr=body.get("instr", "native"), shards=sr["shards"], budget=sr["budget"], args=sr["job_args"])
+        job.miriflags = sr.get("miriflags", "")
+        job.bindir = build(cfg, prof, [eng], job.instr)
+        r = run_shard(job, sr["idx"], body.get("property", prop), sr["seed"], workdir)
+        srep = sanitizer_report(r)
+        if srep is not None:
+            print(srep["excerpt"])
+            print("VIOLATION property=%s replay=%s" % (prop, path))
+            return 1
+        if r.summary is None:
+            print("INCONCLUSIVE: property=%s replayed shard ended abnormally without a recognisable report (rc=%s)" % (prop, r.rc))
+            return 3
+        if r.summary.get("nviol", 0) > 0:
+            print("VIOLATION property=%s replay=%s" % (prop, path))
+            return 1
+        print("replay: property held on this shard")
+        return 0
     extra = []
     if body.get("case_key") is not None or body.get("case_key_file"):
         kf = body.get("case_key_file")
